@@ -162,6 +162,7 @@ void run_worker(Ctx &c, int idx) {
     Worker &w = c.w[idx];
     for (const sim::Op &op : c.plan->ops) {
         if (op.thr != idx) continue;
+        if (c.plan->get("poison_errors", 0)) hx::poison_errors(c.plan->seed, sim::seq());
         sim::note(sim::PK_HARNESS, nullptr, op.kind);
         switch (op.kind) {
             case OP_ACQ: {
